@@ -6,7 +6,10 @@
 //! `SessionConsistency::modify_inner` reads (primary credential, passkeys, attested passkeys,
 //! OAuth2 trust credential uuid), adds login sessions bound to any of those credentials,
 //! revokes sessions, adds / extends / revokes OAuth2 sessions (with a live, revoked, missing,
-//! API-token or no parent), adds / removes API tokens, or just touches the description.
+//! API-token or no parent), adds / removes API tokens, or just touches the description; some
+//! steps are REAL password logins through the auth state machine whose queued AuthSessionRecord
+//! is written by `process_delayedaction` (the recorded cred_id is compared with the model's
+//! primary credential).
 //! After every step the harness reads the real entry back (credential ids, every login session
 //! and OAuth2 session with its state; a `RevokedAt(cid)` is printed as the index of the step whose
 //! transaction had that change id) and presents OAuth2 token coordinates
@@ -14,7 +17,11 @@
 //! at the current time and at grace-window boundary times.
 //! The Coq model (KV.C36.Model) replays the steps and predicts every read-back and every answer
 //! (`agree`); the property predicate is evaluated on the read-backs and answers (`pcheck`).
+use kanidm_proto::v1::{AuthCredential, AuthIssueSession, AuthMech, AuthStep};
 use kanidmd_lib::entry::{Entry, EntryInit, EntryNew};
+use kanidmd_lib::idm::authentication::AuthState;
+use kanidmd_lib::idm::delayed::{AuthSessionRecord, DelayedAction};
+use kanidmd_lib::idm::event::AuthEvent;
 use kanidmd_lib::idm::server::IdmServerTransaction;
 use kanidmd_lib::prelude::*;
 use kanidmd_lib::testkit::{setup_idm_test, TestConfiguration};
@@ -80,6 +87,7 @@ enum Md {
 
 struct Pools {
     primary: Vec<kanidmd_lib::credential::Credential>,
+    primary_pw: Vec<String>,
     passkey: Vec<Uuid>,
     attested: Vec<Uuid>,
     o2cred: Vec<Uuid>,
@@ -298,6 +306,7 @@ impl<'a> World<'a> {
 /// classify the case; never printed as a prediction)
 #[derive(Default, Clone)]
 struct Seen {
+    primary: Option<Uuid>,
     creds: BTreeSet<Uuid>,
     live_uats: Vec<(usize, Uuid)>,
     uats: Vec<(usize, bool)>,
@@ -318,6 +327,7 @@ fn dump(w: &mut World) -> Dump {
     let mut passkeys: Vec<Uuid> = e.get_ava_passkeys(Attribute::PassKeys).map(|m| m.keys().copied().collect()).unwrap_or_default();
     let mut attested: Vec<Uuid> = e.get_ava_attestedpasskeys(Attribute::AttestedPasskeys).map(|m| m.keys().copied().collect()).unwrap_or_default();
     let o2cred = e.get_ava_single_uuid(Attribute::OAuth2AccountCredentialUuid);
+    seen.primary = primary;
     seen.creds.extend(primary.iter().chain(passkeys.iter()).chain(attested.iter()).chain(o2cred.iter()).copied());
     let mut pk: Vec<u64> = passkeys.drain(..).map(|u| w.id(&u)).collect();
     pk.sort();
@@ -398,12 +408,68 @@ fn pick_issued(rng: &mut Rng, t: u64) -> u64 {
     (tsec - back * G).max(BASE)
 }
 
-fn history(rt: &tokio::runtime::Runtime, idms: &IdmServer, rs: &[Uuid], rng: &mut Rng, thorough: bool, sink: &mut Sink, hid: usize) {
+fn drain(delayed: &mut IdmServerDelayed) -> Vec<DelayedAction> {
+    use std::future::Future;
+    use std::task::{Context, Poll, Waker};
+    let mut all = vec![];
+    loop {
+        let mut buf: Vec<DelayedAction> = Vec::with_capacity(16);
+        let n = {
+            let mut fut = std::pin::pin!(delayed.recv_many(&mut buf));
+            let mut cx = Context::from_waker(Waker::noop());
+            match fut.as_mut().poll(&mut cx) {
+                Poll::Ready(n) => n,
+                Poll::Pending => 0,
+            }
+        };
+        if n == 0 {
+            break;
+        }
+        all.append(&mut buf);
+    }
+    all
+}
+
+/// a REAL password login through the auth state machine at time t; the queued session record
+fn login(rt: &tokio::runtime::Runtime, idms: &IdmServer, delayed: &mut IdmServerDelayed, name: &str, pw: &str, t: u64) -> Option<AuthSessionRecord> {
+    let cai = || ClientAuthInfo::new(Source::Internal, None, None, None);
+    let _ = drain(delayed);
+    let mut a = rt.block_on(idms.auth()).expect("auth txn");
+    let ev = AuthEvent::from_message(None, AuthStep::Init2 { username: name.to_string(), issue: AuthIssueSession::Token, privileged: false }.into()).ok()?;
+    let sess = match rt.block_on(a.auth(&ev, d(t), cai())) {
+        Ok(r) => match r.state {
+            AuthState::Choose(_) => r.sessionid,
+            _ => return None,
+        },
+        Err(_) => return None,
+    };
+    let ev = AuthEvent::from_message(Some(sess), AuthStep::Begin(AuthMech::Password).into()).ok()?;
+    match rt.block_on(a.auth(&ev, d(t), cai())) {
+        Ok(r) if matches!(r.state, AuthState::Continue(_)) => {}
+        _ => return None,
+    }
+    let ev = AuthEvent::from_message(Some(sess), AuthStep::Cred(AuthCredential::Password(pw.to_string())).into()).ok()?;
+    match rt.block_on(a.auth(&ev, d(t), cai())) {
+        Ok(r) if matches!(r.state, AuthState::Success(_, _)) => {}
+        _ => return None,
+    }
+    a.commit().expect("auth commit");
+    let mut out = None;
+    for da in drain(delayed) {
+        if let DelayedAction::AuthSessionRecord(r) = da {
+            out = Some(r);
+        }
+    }
+    out
+}
+
+fn history(rt: &tokio::runtime::Runtime, idms: &IdmServer, delayed: &mut IdmServerDelayed, rs: &[Uuid], rng: &mut Rng, thorough: bool, sink: &mut Sink, hid: usize) {
     let service = rng.chance(1, 4);
     let base_u = 0xc36c_36c3_0000_0000_0000_0000_0000_0000u128 + ((hid as u128) << 32);
     let acct = Uuid::from_u128(base_u);
     let pools = Pools {
         primary: (0..3).map(|i| hook::cred_new_password(&format!("c36-password-{}-{}", hid, i))).collect(),
+        primary_pw: (0..3).map(|i| format!("c36-password-{}-{}", hid, i)).collect(),
         passkey: (0..3).map(|i| Uuid::from_u128(base_u + 0x100 + i)).collect(),
         attested: (0..2).map(|i| Uuid::from_u128(base_u + 0x200 + i)).collect(),
         o2cred: (0..2).map(|i| Uuid::from_u128(base_u + 0x300 + i)).collect(),
@@ -449,9 +515,20 @@ fn history(rt: &tokio::runtime::Runtime, idms: &IdmServer, rs: &[Uuid], rng: &mu
         if rng.chance(1, 6) {
             t += *rng.pick(&[1u64, G - 1]);
         }
-        // ---- choose the modify list
-        let n_mods = if k == 0 { 4 } else { rng.range(1, 3) };
+        // ---- sometimes: a REAL password login, recorded in this step's transaction
+        let mut login_rec: Option<AuthSessionRecord> = None;
+        if !service && k > 0 && rng.chance(1, 5) {
+            if let Some(pu) = seen.primary {
+                if let Some(pi) = w.pools.primary.iter().position(|c| hook::cred_uuid(c) == pu) {
+                    let pw = w.pools.primary_pw[pi].clone();
+                    login_rec = login(rt, idms, delayed, &name, &pw, t);
+                    sink.bump(if login_rec.is_some() { "real_login_ok" } else { "real_login_failed" });
+                }
+            }
+        }
         let mut mds: Vec<Md> = vec![];
+        if login_rec.is_none() {
+        let n_mods = if k == 0 { 4 } else { rng.range(1, 3) };
         for j in 0..n_mods {
             let all_creds: Vec<Uuid> = {
                 let mut v: Vec<Uuid> = w.pools.primary.iter().map(hook::cred_uuid).collect();
@@ -477,6 +554,13 @@ fn history(rt: &tokio::runtime::Runtime, idms: &IdmServer, rs: &[Uuid], rng: &mu
                 Md::SetPrimary(0)
             } else if k == 0 && j == 1 && !service {
                 Md::AddPasskey(0)
+            } else if k == 0 && j == 2 {
+                Md::AddUat { sid: 0, cred: hook::cred_uuid(&w.pools.primary[0]), st: pick_state(rng, t + 600 * G), issued: pick_issued(rng, t) }
+            } else if k == 0 && j == 3 {
+                let cred = if service { hook::cred_uuid(&w.pools.primary[0]) } else { w.pools.passkey[0] };
+                Md::AddUat { sid: 1, cred, st: St::Never, issued: pick_issued(rng, t) }
+            } else if k == 1 && j == 0 {
+                Md::AddO2 { oid: 0, parent: Some(rng.below(2) as usize), st: pick_state(rng, t + 600 * G), issued: pick_issued(rng, t), rs: 0 }
             } else {
                 match rng.below(100) {
                     0..=7 => Md::SetPrimary(rng.below(3) as usize),
@@ -507,7 +591,7 @@ fn history(rt: &tokio::runtime::Runtime, idms: &IdmServer, rs: &[Uuid], rng: &mu
                                 }
                             }
                         };
-                        Md::AddO2 { oid: rng.below(5) as usize, parent, st: pick_state(rng, t), issued: pick_issued(rng, t), rs: rng.below(2) as usize }
+                        { let oid = rng.below(5) as usize; Md::AddO2 { oid, parent, st: pick_state(rng, t), issued: pick_issued(rng, t), rs: oid % 2 } }
                     }
                     86..=89 => Md::RevokeO2(rng.below(5) as usize),
                     90 => Md::RevokeRs(rng.below(2) as usize),
@@ -535,22 +619,38 @@ fn history(rt: &tokio::runtime::Runtime, idms: &IdmServer, rs: &[Uuid], rng: &mu
             keep.push(m);
         }
         keep.reverse();
-        let mds = keep;
+        mds = keep;
         has_o2acct = match mds.iter().rev().find(|m| matches!(m, Md::SetO2Cred(_) | Md::DropO2Account)) {
             Some(Md::SetO2Cred(_)) => true,
             Some(_) => false,
             None => seen.creds.iter().any(|c| w.pools.o2cred.contains(c)),
         };
+        }
         let mut mods = vec![];
         let mut mds_coq = vec![];
         for m in &mds {
             mds_coq.push(w.mods_of(m, &mut mods));
         }
+        let login_da = login_rec.map(|asr| {
+            assert_eq!(asr.target_uuid, acct);
+            let st = match asr.expiry {
+                Some(e) => St::Expires(unodt!(e)),
+                None => St::Never,
+            };
+            w.pools.sid.push(asr.session_id);
+            let (s, c) = (w.id(&asr.session_id), w.id(&asr.cred_id));
+            mds_coq.push(capp("MLogin", &[cn(s), cn(c), st_coq(&st), rel(unodt!(asr.issued_at))]));
+            DelayedAction::AuthSessionRecord(asr)
+        });
         // ---- run it on the real server
         let ok = {
             let mut wr = rt.block_on(idms.proxy_write(d(t))).expect("proxy_write");
             w.cids.push(wr.qs_write.verif_cid());
-            match wr.qs_write.internal_modify_uuid(acct, &ModifyList::new_list(mods)) {
+            let r = match &login_da {
+                Some(da) => wr.process_delayedaction(da, d(t)),
+                None => wr.qs_write.internal_modify_uuid(acct, &ModifyList::new_list(mods)),
+            };
+            match r {
                 Ok(()) => {
                     wr.commit().expect("commit");
                     true
@@ -625,15 +725,15 @@ fn main() {
     let args = parse_args();
     let mut rng = Rng::new(args.seed);
     let mut sink = Sink::new(&args, "KV.C36.Model", 12);
-    sink.rule = "one case = one random history (6-14 write transactions quick / 8-22 thorough) on one fresh account (person 3/4, service account 1/4) of a real in-memory IdmServer; every transaction is one internal_modify with 1-3 changes drawn from: set/purge primary credential (pool of 3, re-adding an old one is possible), add/remove passkey (3), add/remove attested passkey (2), set/drop OAuth2 trust credential uuid (2), add login session (8 ids; credential mostly one on the account, sometimes another pool credential or a foreign one; state never/expired/expiring now/+1ns/later; issue time 0..900 s back), revoke / purge login sessions, add or extend OAuth2 session (5 ids; parent = known login session, any id, API token or none), revoke OAuth2 session by id or by resource server, purge, add/remove API token, touch; times advance by 0..900 s (+-1 ns, sometimes backwards); after every transaction the entry is read back and 4-8 (session, parent, iat, ct) tuples are given to check_oauth2_account_uuid_valid at now, iat+grace-1ns/0/+1ns, now+grace. \
+    sink.rule = "one case = one random history (6-14 write transactions quick / 8-22 thorough) on one fresh account (person 3/4, service account 1/4) of a real in-memory IdmServer; the first transaction sets a primary credential, a passkey and two login sessions bound to them; every transaction is one internal_modify with 1-3 changes drawn from: set/purge primary credential (pool of 3, re-adding an old one is possible), add/remove passkey (3), add/remove attested passkey (2), set/drop OAuth2 trust credential uuid (2), add login session (8 ids; credential mostly one on the account, sometimes another pool credential or a foreign one; state never/expired/expiring now/+1ns/later; issue time 0..900 s back), a REAL password login through the auth state machine (1/5 of the steps of a person with a primary credential; its AuthSessionRecord is written by process_delayedaction as the step), revoke / purge login sessions, add or extend OAuth2 session (5 ids; parent = known login session incl. real ones, any id, API token or none; the resource server is a function of the session id), revoke OAuth2 session by id or by resource server, purge, add/remove API token, touch; times advance by 0..900 s (+-1 ns, sometimes backwards); after every transaction the entry is read back and 4-8 (session, parent, iat, ct) tuples are given to check_oauth2_account_uuid_valid at now, iat+grace-1ns/0/+1ns, now+grace. \
 non-trivial = in the history at least one live login session lost its credential in a step AND a token with a live OAuth2 session record was rejected past grace AND some token was accepted".into();
     let rt = tokio::runtime::Builder::new_current_thread().enable_all().build().expect("rt");
-    let (idms, _delayed, _audit) = rt.block_on(setup_idm_test(TestConfiguration::default()));
+    let (idms, mut delayed, _audit) = rt.block_on(setup_idm_test(TestConfiguration::default()));
     let rs: Vec<Uuid> = (0..2).map(|i| Uuid::from_u128(0xc36c_36c3_ffff_0000_0000_0000_0000_0000u128 + i)).collect();
     create_rs(&rt, &idms, &rs);
     let n_hist = if args.thorough { 1200 } else { 180 };
     for hid in 0..n_hist {
-        history(&rt, &idms, &rs, &mut rng, args.thorough, &mut sink, hid);
+        history(&rt, &idms, &mut delayed, &rs, &mut rng, args.thorough, &mut sink, hid);
     }
     sink.finish();
 }
